@@ -16,7 +16,10 @@ RULE = ('Model-based stateful testing: generated histories over 2-4 '
         'delete / nested update), client DISCONNECT, server.disconnect, '
         'nested session() blocks for the same client, transport loss and '
         'reconnects on the same transport (same or other '
-        'namespace) or a new one; both servers. Oracle: a dict model keyed '
+        'namespace) or a new one, and connection requests to a namespace '
+        'whose handler refuses (False / ConnectionRefusedError, optionally '
+        'after saving a session; always_connect on and off) beside live '
+        'sessions of the same transport; both servers. Oracle: a dict model keyed '
         'by the connection (sid): every read equals the model, a freshly '
         'issued sid reads {}, nothing leaks across clients or namespaces. '
         'Non-trivial: a reconnect of the same (transport, namespace) after a '
@@ -69,16 +72,22 @@ def strategy(tier):
                                'same': st.booleans()}),
         st.fixed_dictionaries({'op': st.just('reconnect'), 'j': ci,
                                'same': st.just(True)}),
+        # the transport asks for a namespace whose connect handler refuses
+        st.fixed_dictionaries({'op': st.just('refused'),
+                               't': st.integers(0, 3)}),
     )
     return st.fixed_dictionaries({
         'aio': st.booleans(),
+        'always_connect': st.booleans(),
+        'refuse_by': st.sampled_from(['false', 'raise', 'save+raise']),
         'init': st.lists(st.tuples(st.integers(0, 2), st.integers(0, 2)),
                          min_size=2, max_size=5),
         'ops': st.lists(op, min_size=4, max_size=70 if big else 30)})
 
 
 def check_case(case):
-    w = World(aio=case['aio'], namespaces=NSS)
+    w = World(aio=case['aio'], namespaces=NSS + ['/ref'],
+              always_connect=case.get('always_connect', False))
     try:
         return _run(case, w)
     finally:
@@ -105,6 +114,24 @@ def _run(case, w):
         if (t, ns) in saved_then_gone:
             watch.add(ci)
         return ci
+
+    import socketio as _sio_mod
+    how = case.get('refuse_by', 'false')
+    if aio:
+        async def refuse(sid, environ, auth=None):
+            if how == 'save+raise':
+                await sio.save_session(sid, {'tmp': 1}, namespace='/ref')
+            if how != 'false':
+                raise _sio_mod.exceptions.ConnectionRefusedError('no')
+            return False
+    else:
+        def refuse(sid, environ, auth=None):
+            if how == 'save+raise':
+                sio.save_session(sid, {'tmp': 1}, namespace='/ref')
+            if how != 'false':
+                raise _sio_mod.exceptions.ConnectionRefusedError('no')
+            return False
+    sio.on('connect', refuse, namespace='/ref')
 
     for t, n in case['init']:
         if w.client_on(t, NSS[n]) is None:
@@ -159,8 +186,24 @@ def _run(case, w):
                 ci = connect(t, ns)
                 read(ci, 'get')
             continue
+        if k == 'refused':
+            t = op['t'] % len(w.t)
+            if not w.t_alive[t]:
+                continue
+            ci, pkts = w.connect(t, '/ref')
+            if ci is not None:
+                w.mark_dead(ci)     # always_connect: CONNECT then DISCONNECT
+            # the sessions of the transport's other namespaces are untouched
+            mine = [i for i in w.live() if w.clients[i]['t'] == t]
+            for i in mine:
+                read(i, 'get')
+            if any(model.get(i) for i in mine):
+                labels['refused_connect_beside_session'] = True
+                labels['nontrivial'] = True
+            continue
         if k == 'reconnect':
-            dead = [c for c in w.clients if not c['alive']]
+            dead = [c for c in w.clients if not c['alive'] and
+                    c['ns'] != '/ref']
             if not dead:
                 continue
             c = dead[op['j'] % len(dead)]
